@@ -59,6 +59,17 @@ pub enum NameK {
 	LocCustom,
 	/// digit prefix + simple name of the class (`1B`)
 	LocDerived,
+	/// a positive number of two digits (`11` for `p/B`)
+	Pos2,
+	/// the largest number a 32-bit reader accepts (`2147483647`)
+	PosMax,
+	/// `00`: numeric, not positive
+	Zeros,
+	/// the part of the simple name behind its last `__` (`D` for `p/A__D`; the whole simple name where there is no `__`):
+	/// the inner name an already-nested `C__D` name carries
+	Tail,
+	/// digit prefix + that part (`1D`)
+	LocTail,
 }
 
 #[derive(Clone, Copy, Debug, PartialEq, Eq, Hash, PartialOrd, Ord)]
@@ -66,8 +77,12 @@ pub enum MethK {
 	None,
 	/// a method the enclosing class declares (if that class is in the jar)
 	Present,
-	/// a method no class declares
+	/// a method no class declares (the name of the present one, another descriptor)
 	Absent,
+	/// a method no class declares (the descriptor of the present one, another name)
+	OtherName,
+	/// a method only the nested class itself declares (`onlyB()V` for `p/B`), not the enclosing class
+	InNestedOnly,
 }
 
 #[derive(Clone, Copy, Debug, PartialEq, Eq, Hash, PartialOrd, Ord)]
@@ -107,9 +122,28 @@ pub const KINDS_FULL: &[Kind] = &[
 	k(Ty::Anon, MethK::Absent, NameK::Pos),
 	k(Ty::Anon, MethK::None, NameK::Derived),
 	k(Ty::Anon, MethK::None, NameK::LocCustom),
+	// --- the first twenty-two are the menu of the first sessions (`OLD`); the rest: enclosing methods that are
+	//     "present" only for a sloppy lookup, numbers at the edges of "positive numeric", already-nested names
+	k(Ty::Local, MethK::OtherName, NameK::LocDerived),
+	k(Ty::Inner, MethK::OtherName, NameK::Derived),
+	k(Ty::Local, MethK::InNestedOnly, NameK::LocDerived),
+	k(Ty::Inner, MethK::InNestedOnly, NameK::Derived),
+	k(Ty::Anon, MethK::InNestedOnly, NameK::Pos),
+	k(Ty::Anon, MethK::None, NameK::Pos2),
+	k(Ty::Anon, MethK::Present, NameK::PosMax),
+	k(Ty::Anon, MethK::None, NameK::Zeros),
+	k(Ty::Inner, MethK::None, NameK::Tail),
+	k(Ty::Local, MethK::Present, NameK::LocTail),
 ];
 pub const CORE: usize = 6;
 pub const MEDIUM: usize = 12;
+pub const OLD: usize = 22;
+/// a method name with the descriptor of `M_PRESENT` that no class declares
+pub const M_OTHER_NAME: (&str, &str) = ("mm", "(Lp/B;[Lp/E;)Lp/C_12;");
+/// the method only class `i` declares
+pub fn only_method(i: usize) -> (String, String) {
+	(format!("only{}", LETTER[i]), "()V".to_owned())
+}
 /// menu of the four-entry tables: one applying kind per type plus one rejected
 pub const KINDS_MINI: &[Kind] = &[
 	k(Ty::Inner, MethK::None, NameK::Derived),
@@ -138,6 +172,11 @@ pub fn inner_name(class: usize, name: NameK) -> String {
 		NameK::Zero => "0".to_owned(),
 		NameK::LocCustom => format!("1Loc{s}"),
 		NameK::LocDerived => format!("1{s}"),
+		NameK::Pos2 => ["14", "11", "12", "13", "15", "16"][class].to_owned(),
+		NameK::PosMax => "2147483647".to_owned(),
+		NameK::Zeros => "00".to_owned(),
+		NameK::Tail => s.rsplit_once("__").map_or(s, |(_, t)| t).to_owned(),
+		NameK::LocTail => format!("1{}", s.rsplit_once("__").map_or(s, |(_, t)| t)),
 	}
 }
 
@@ -150,6 +189,8 @@ pub fn entry(class: usize, encl: usize, kind: Kind) -> Entry {
 			MethK::None => None,
 			MethK::Present => Some((M_PRESENT.0.to_owned(), M_PRESENT.1.to_owned())),
 			MethK::Absent => Some((M_ABSENT.0.to_owned(), M_ABSENT.1.to_owned())),
+			MethK::OtherName => Some((M_OTHER_NAME.0.to_owned(), M_OTHER_NAME.1.to_owned())),
+			MethK::InNestedOnly => Some(only_method(class)),
 		},
 		inner: inner_name(class, kind.name),
 		flags: FLAGS[class],
